@@ -79,6 +79,32 @@ pub fn judge_pair(h: &History) -> Result<(u32, bool), Failure> {
     if n_rejected == 0 {
         return Ok((0, false));
     }
+    // "... while the receive window stays open": Class C listening (the gaps of a transaction, idle listening
+    // with a session) goes on after a frame that is not accepted, so every frame the script holds for that
+    // listening period after a rejected one is heard too. The twin below is built from what was heard; a
+    // device that stops listening after a rejected frame would otherwise take the later frames out of both runs.
+    if h.cfg.front.is_async() {
+        for a in &recs_p {
+            let (plan, idle): (Option<&RxPlan>, Option<&Vec<Recipe>>) = match &a.step {
+                Step::Send { rx, .. } | Step::Join(rx) => (Some(rx), None),
+                Step::RxcListen(v) if a.snap_before.joined => (None, Some(v)),
+                _ => (None, None),
+            };
+            if plan.map(|p| p.fault_at.is_some()).unwrap_or(false) || matches!(a.outcome, Outcome::Err(_) | Outcome::Panic(_)) {
+                continue;
+            }
+            for (slot, scripted) in [(Slot::Gap1, plan.map(|p| p.gap1.len())), (Slot::Gap2, plan.map(|p| p.gap2.len())), (Slot::Idle, idle.map(|v| v.len()))] {
+                let Some(scripted) = scripted else { continue };
+                let heard: Vec<&DeliveryRec> = a.deliveries.iter().filter(|d| d.slot == slot).collect();
+                if let Some(last) = heard.last() {
+                    if heard.len() < scripted && is_rejected(&last.verdict) && !a.deliveries.iter().any(|d| matches!(d.verdict, Verdict::Oversize)) {
+                        let what = match &last.verdict { Verdict::Reject(w) => w.replace(' ', "-"), _ => String::new() };
+                        return Err(Failure::new("non-interference", json!({"kind": "pair", "with_rejected_frames": h.json()}), format!("step {}.{}: after the rejected frame {} ({what}) heard by Class C listening ({slot:?}) the device stopped listening: {} of the {scripted} frames on the air in that period were heard\n{}", a.index, a.sub, hex(&last.bytes), heard.len(), render(std::slice::from_ref(a), 1))).with_fp(format!("window-closed/{what}/classC")));
+                    }
+                }
+            }
+        }
+    }
     let Some((t, oversize_at)) = twin(h, &recs_p) else { return Ok((0, false)) };
     let (mut world_t, recs_t) = run_history(&t).map_err(|e| Failure::new("harness", t.json(), e))?;
     let case = || json!({"kind": "pair", "with_rejected_frames": h.json()});
@@ -164,7 +190,7 @@ pub fn replay(case: &Value, _kf: &KnownFindings) -> Result<(), Failure> {
 /// rejected-frame recipes (whether one really is rejected is decided by the reference model)
 fn rejected_recipe(reg: Reg) -> impl Strategy<Value = Recipe> {
     prop_oneof![
-        3 => proptest::collection::vec(any::<u8>(), 0..64).prop_map(Recipe::Random),
+        3 => crate::gen::random_bytes_strategy().prop_map(Recipe::Random),
         5 => (any::<u16>(), any::<bool>()).prop_map(|(bit, with_cmds)| Recipe::BitFlip { bit, with_cmds }),
         2 => any::<bool>().prop_map(|same_addr| Recipe::Foreign { same_addr }),
         3 => any::<u16>().prop_map(Recipe::Replay),
@@ -175,11 +201,16 @@ fn rejected_recipe(reg: Reg) -> impl Strategy<Value = Recipe> {
     ]
 }
 
+/// the authentic application downlink that follows a rejected frame in the same Class C listening period
+fn follow_up() -> Recipe {
+    Recipe::Auth { delta: 1, confirmed: false, port: Some(5), payload_len: 2, fopts: vec![], frm_cmds: vec![], ack: false, fpending: false }
+}
+
 pub fn history_strategy() -> impl Strategy<Value = History> {
     (c08::history_strategy(), proptest::collection::vec(any::<u16>(), 1..=5)).prop_flat_map(|(h, positions)| {
         let reg = Reg::from_name(h.cfg.region.name()).unwrap();
         let n = positions.len();
-        (Just(h), Just(positions), proptest::collection::vec((rejected_recipe(reg), 0u8..5, any::<bool>()), n..=n), proptest::collection::vec((any::<u16>(), prop_oneof![2 => (1u16..70).prop_map(Step::Silence), 2 => any::<bool>().prop_map(Step::SetAdr), 2 => gen::join_plan_strategy(reg).prop_map(Step::Join), 3 => prop_oneof![3 => Just(false), 1 => Just(true)].prop_map(Step::SetDrain)]), 0..3))
+        (Just(h), Just(positions), proptest::collection::vec((rejected_recipe(reg), 0u8..5, any::<bool>(), any::<bool>()), n..=n), proptest::collection::vec((any::<u16>(), prop_oneof![2 => (1u16..70).prop_map(Step::Silence), 2 => any::<bool>().prop_map(Step::SetAdr), 2 => gen::join_plan_strategy(reg).prop_map(Step::Join), 3 => prop_oneof![3 => Just(false), 1 => Just(true)].prop_map(Step::SetDrain)]), 0..3))
     })
     .prop_map(|(mut h, positions, inserts, extra)| {
         for (pos, s) in extra {
@@ -188,7 +219,7 @@ pub fn history_strategy() -> impl Strategy<Value = History> {
         }
         let class_c = matches!(h.cfg.front, FrontKind::AsyncClassC | FrontKind::AsyncQ1 | FrontKind::AsyncSeeded);
         // insert rejected frames at receive opportunities
-        for (pos, (recipe, slot, front)) in positions.iter().zip(inserts) {
+        for (pos, (recipe, slot, front, follow)) in positions.iter().zip(inserts) {
             let targets: Vec<usize> = h.steps.iter().enumerate().filter(|(_, s)| matches!(s, Step::Send { .. } | Step::Join(_) | Step::RxcListen(_))).map(|(i, _)| i).collect();
             if targets.is_empty() {
                 continue;
@@ -207,12 +238,20 @@ pub fn history_strategy() -> impl Strategy<Value = History> {
                     } else {
                         list.push(recipe);
                     }
+                    // Class C gaps take several frames: in half of the insertions an authentic
+                    // downlink is heard after the rejected frame in the same gap (the window "stays open")
+                    if follow && class_c && slot < 2 && !list.iter().skip(1).any(|r| matches!(r, Recipe::Auth { .. })) {
+                        list.push(follow_up());
+                    }
                 }
                 Step::RxcListen(v) => {
                     if front {
                         v.insert(0, recipe)
                     } else {
                         v.push(recipe)
+                    }
+                    if follow && !v.iter().skip(1).any(|r| matches!(r, Recipe::Auth { .. })) {
+                        v.push(follow_up());
                     }
                 }
                 _ => {}
@@ -223,7 +262,7 @@ pub fn history_strategy() -> impl Strategy<Value = History> {
 }
 
 pub fn run(ctx: &mut Ctx) {
-    ctx.rule = "proptest pairs (H+, H): H+ is a history of accepted MAC-bearing downlinks, sends (also on port 0), confirmed downlinks, silences, ADR toggles and (re-)joins into which 1..5 frames from {random bytes, single-bit flips of authentic frames (header/FOpts/payload/MIC), authentic frames of another session, replays, stale/far-future counters with valid MIC, wrong-epoch MIC, oversize frames, JoinAccepts under a wrong key / bit-flipped / while joined} are inserted at RX1, RX2, Class C gaps and idle listening; the reference codec decides which delivered frames are rejected; H is H+ re-run with exactly those frames removed (an oversize frame in a Class A window also removes the rest of that receive procedure). Twin devices with identical configuration and RNG streams must agree on every uplink (bytes, power, RF config), every radio/timer request, every response, delivered payloads (also those an application that does not collect its downlinks finds in the queue at the end: SetDrain steps, queue depth 4 and the crate's default 1), session JSON and MAC snapshot after every transaction. Non-trivial: a rejected frame that is structurally a data frame / JoinAccept delivered while answers were pending, an ACK was owed or the ADR count was > 0; distinct by hash".into();
+    ctx.rule = "proptest pairs (H+, H): H+ is a history of accepted MAC-bearing downlinks, sends (also on port 0), confirmed downlinks, silences, ADR toggles and (re-)joins into which 1..5 frames from {random bytes, single-bit flips of authentic frames (header/FOpts/payload/MIC), authentic frames of another session, replays, stale/far-future counters with valid MIC, wrong-epoch MIC, oversize frames, JoinAccepts under a wrong key / bit-flipped / while joined} are inserted at RX1, RX2, Class C gaps and idle listening (random bytes include the empty reception and single octets; in half of the Class C insertions an authentic downlink follows the rejected frame in the same listening period); the reference codec decides which delivered frames are rejected; H is H+ re-run with exactly those frames removed (an oversize frame in a Class A window also removes the rest of that receive procedure). After a rejected frame heard by Class C listening every later frame scripted for that listening period must be heard too (`window-closed`). Twin devices with identical configuration and RNG streams must agree on every uplink (bytes, power, RF config), every radio/timer request, every response, delivered payloads (also those an application that does not collect its downlinks finds in the queue at the end: SetDrain steps, queue depth 4 and the crate's default 1), session JSON and MAC snapshot after every transaction. Non-trivial: a rejected frame that is structurally a data frame / JoinAccept delivered while answers were pending, an ACK was owed or the ADR count was > 0; distinct by hash".into();
     ctx.assumptions = vec![
         "async receive windows are single-shot: a rejected frame replaces the time-out of that window; in nb windows and Class C gaps frames are additional".into(),
         "for a transaction in which an oversize frame ended the receive procedure, only the uplink, the response, the following transactions and the states are compared".into(),
